@@ -389,3 +389,16 @@ Definition collect_ok_b (k c : fp) : bool := subset_b (snd c) (fst k) || fp_inde
 Definition probe_independent_b (p : probe) : bool :=
   pairwise_b fp_indep_b (p_comp p) && pairwise_b fp_indep_b (p_bias p) && pairwise_b fp_indep_b (p_collect p) &&
   forallb (fun k => forallb (collect_ok_b k) (p_comp p)) (p_collect p).
+
+(* ------------------------------------------------------------------------------------------- *)
+(* 8. The guard of the bias loop, and the log                                                    *)
+(* ------------------------------------------------------------------------------------------- *)
+(* calc_biases: `if (smp mode == cvcs && !biases_need_main_thread)` the parallel loop, else script then the straight
+   loop; biases_need_main_thread = some active bias has replica_share_freq() > 0 (it needs I/O or MPI) *)
+Definition bias_loop_items (need_main_thread : bool) (c : cfg) (t : nat) (ob : list nat) : list sitem :=
+  if need_main_thread
+  then (if c_use_script c && negb (c_script_after c) then script_items c else []) ++ map bias_item (active_biases t (c_biases c))
+  else pick (smp_bias_work c t) ob.
+
+(* the log of a loop: every item appends its messages when it runs (one proxy->log call per message, serialised) *)
+Definition log_of {A} (msgs : list (list A)) (order : list nat) : list A := concat (pick msgs order).
